@@ -760,6 +760,16 @@ class Interp:
                     if seq is not None and top['header'] == key and top.get('step', 0) + 1 < len(seq):
                         # sequence mode: feed the next item without widening (state of the previous iteration is kept)
                         step = top.get('step', 0) + 1
+                        if seq[step] == 'END':
+                            # the sequence ends here: the iterator is exhausted and the path continues after the loop
+                            top['step'] = step
+                            top['marks'] = top.get('marks', []) + [len(m.events)]
+                            top['ended'] = True
+                            m.visits = {}
+                            if dest is not None:
+                                self.store(dest, Agg('core::option::Option', 'None', []))
+                            self.goto(f, nxt)
+                            return None
                         alts = seq[step] if isinstance(seq[step], list) else [seq[step]]
                         extra = []
                         m.visits = {}      # a new iteration of the sequence: the per-path revisit bound starts afresh
@@ -1296,12 +1306,18 @@ class Interp:
             none = Agg('core::option::Option', 'None', [])
             if isinstance(a0d, Const):
                 return some if a0d.v else none
-            return self.fork_values(m, [some, none])
+            forks = self.fork_values(m, [some, none])
+            for (mm, val), lab in zip(forks, (True, False)):
+                mm.assumed.append((f.body.short, f.bb, None, getattr(a0d, 'src', None), lab))
+            return forks
         if re.search(r'bool::<impl bool>::then$', path):
             none = Agg('core::option::Option', 'None', [])
             if isinstance(a0d, Const) and not a0d.v:
                 return none
             m_none = None if isinstance(a0d, Const) else fork(m)     # fork before the closure's events are recorded
+            if m_none is not None:
+                m.assumed.append((f.body.short, f.bb, None, getattr(a0d, 'src', None), True))
+                m_none.assumed.append((f.body.short, f.bb, None, getattr(a0d, 'src', None), False))
             some = self.option_hof(m, f, t, 'map', Agg('core::option::Option', 'Some', [NOTHING_VAL]), args, unit_arg=True)
             if m_none is None:
                 return some
